@@ -100,12 +100,6 @@ func linearise(c *Case, o *Observed, guard bool) *analysis {
 		catchupEmitted = true
 	}
 
-	lastTick := -1
-	for i, m := range o.Marks {
-		if m.Kind == "tick" {
-			lastTick = i
-		}
-	}
 	for i, m := range o.Marks {
 		if m.PreWatch && m.Kind != "watch" && m.Kind != "watchfail" {
 			switch m.Kind {
@@ -131,6 +125,21 @@ func linearise(c *Case, o *Observed, guard bool) *analysis {
 			case "tick":
 				if catchupEmitted || !sawFin1 || filterFailed {
 					a.problems = append(a.problems, "unexpected FinalisedHeight poll before the first subscription")
+					continue
+				}
+				if o.DBFaultFired && i == o.DBFaultMark {
+					// the database failed inside the catch-up's own setL1Head: Run only logs it
+					a.dbFault = true
+					q := "-"
+					if len(queries) > 0 {
+						q = strings.Join(queries, ",")
+					}
+					a.steps = append(a.steps, modelStep{
+						line:   fmt.Sprintf("catchupfault %x %x %x %s %x %s", c.Latest, c.Fin1, c.Chunk, failAt, m.Fin, c.DBFault),
+						expect: fmt.Sprintf("res=complete q=%s head=%s feed=%s", q, afterHead(i).String(), o.DBFaultHead.String()),
+						what:   "catch-up with failing database"})
+					a.catchup, a.chunks, catchupEmitted = "complete", len(queries), true
+					a.sems = append(a.sems, sem{kind: "dbfault"})
 					continue
 				}
 				n0, n1 := m.NotesBefore, afterNotes(i)
@@ -160,12 +169,13 @@ func linearise(c *Case, o *Observed, guard bool) *analysis {
 		}
 		switch m.Kind {
 		case "tick":
-			if o.DBFaultFired && i == lastTick {
+			if o.DBFaultFired && i == o.DBFaultMark {
 				// the database failed inside this setL1Head: Run has returned the error
 				a.dbFault = true
 				a.steps = append(a.steps, modelStep{line: fmt.Sprintf("tickfault %x %s", m.Fin, c.DBFault),
 					expect: fmt.Sprintf("head=%s feed=%s fatal=1", afterHead(i).String(), o.DBFaultHead.String()),
 					what:   "poll with failing database"})
+				a.sems = append(a.sems, sem{kind: "dbfault"})
 				prevLiveKind = m.Kind
 				continue
 			}
